@@ -89,6 +89,28 @@ def param_boundary_values(name):
     return out
 
 
+def param_int_boundaries(name):
+    """integer parameters set to small values and to values around the population size, where accepted"""
+    cls = config_class(name)
+    base = base_params(name)
+    pop = base['population_size']
+    out = []
+    for f, v in base.items():
+        if f in BASE_FIELDS or isinstance(v, bool) or not isinstance(v, int):
+            continue
+        for nv in sorted({1, 2, 3, pop - 1, pop, pop + 1, 2 * pop}):
+            if nv == v or abs(nv - v) == 1:
+                continue
+            d = dict(base)
+            d[f] = nv
+            try:
+                cls(**d)
+            except Exception:
+                continue
+            out.append((f, nv))
+    return out
+
+
 def param_deviations(name):
     """one-parameter deviations of every algorithm parameter to its neighbouring values, kept only if the config
     validator accepts them -> list of (field, value)"""
